@@ -39,6 +39,9 @@ for cnt in (16, 32, 48, 64):
                         unwind=cnt + 20, spec_unwind=cnt + 20, search=20000, split=True, timeout=600,
                         fn=["beltBDEStart", "beltBDEStepE", "beltBDEStepD", "beltBDE_keep", "beltBlockMulC", "beltKeyExpand2"],
                         note="beltBDEEncr / beltBDEDecr == the same spec only in the native search of this harness (N)"))
+GROUPS.append(G("lcl.addbitsize", "harness/C01/modes.c", "h_addbitsize", BDE + KEYX, level="P", unwind=8, spec_unwind=8, search=200000, split=True, timeout=300,
+                fn=["beltBlockAddBitSizeU32", "beltHalfBlockAddBitSizeW"],
+                note="loop-free code, every 128-bit block x every size_t count (the carry into the second word needs 2^29 octets of input: unreachable for a run)"))
 # belt-wbl (base and optimised paths) and belt-sde against the standard over the uninterpreted block function (round 3)
 WBL = ["src/crypto/belt/belt_wbl.c", "src/crypto/belt/belt_sde.c"] + BELT
 for mode, lens in (("wbl", (32, 33, 47, 48, 49, 64, 65, 80, 96)), ("sde", (32, 48, 64, 80))):
